@@ -6,7 +6,7 @@ LEVEL = "proof"
 LEVEL_TEXT = ("proved for every text urlsplit accepts (under its stated contract): parse_url places scheme, path, query and fragment on exactly the text of that component "
               "(url_text[start:end] == component, offset bookkeeping proved through five cut points against the positions of the urlsplit decomposition), the scheme value is the "
               "lower-cased text and is labelled MixedCase exactly when the text is neither all lower nor all upper case, query / fragment values are the percent-decoded component; "
-              "parse_authority places the user name at the start of the authority up to the first ':' (or last '@'), the password between the first ':' and the last '@', the host right "
+              "parse_ip / parse_ipv6 label the host as IP-obfuscated exactly when the canonical value differs from the host text (verified against uninterpreted models of socket / ipaddress); parse_authority places the user name at the start of the authority up to the first ':' (or last '@'), the password between the first ':' and the last '@', the host right "
               "after the last '@' (at 0 when there is none), user name and password values are the percent-decoded text their spans select, and parse_url carries that through "
               "shift_nodes (value == unquote(url_text[start:end])). normalize_path (dot segments, %2F), the host canonicalisation (parse_ip / parse_ipv6), find_urls and the Windows-path "
               "half are covered by the bounded stand-in only (labelled as such): normalize_path EXHAUSTIVELY over all paths of up to 5 segments from a 7-symbol set, URL parts on URLs "
@@ -16,10 +16,10 @@ LEVEL_NOTE = ("ASSUMED: urllib.parse.urlsplit decomposes its argument as [scheme
               "derived from it by the model lemma urlsplit-positions, discharged every run); unquote_to_bytes / bytes.split / lower / upper as uninterpreted operations with their listed "
               "contracts; trusted string axioms slice-of-slice and upper-of-lower; parse_url requires a non-empty authority after '//' (true of every URL_RE match; parse_url(b'file:///x') "
               "mis-places the path, outside C12 because no URL node is built from it); the host span ends len(decoded host) after its start (equal to the text length for every host that "
-              "survives normalisation). find_urls is proved to hand parse_url a text that meets its preconditions (is_url of the normalised text) and to attach the parts as children inside the node value. NOT proved: normalize_path, normalize_percent_encoding, parse_ip / parse_ipv6 (ASSUMED contracts), find_windows_path (ntpath.normpath)")
+              "survives normalisation). find_urls is proved to hand parse_url a text that meets its preconditions (is_url of the normalised text) and to attach the parts as children inside the node value. NOT proved: the cancellation order of normalize_path, normalize_percent_encoding (ASSUMED contract); find_windows_path is proved for DecoderOK only (C03), its values are bounded (ntpath.normpath)")
 DESIGN_REF = "DESIGN.md 6 (C12), 14"
 TECHNIQUE = "contract-based deductive verification of parse_url / parse_authority / shift_nodes (pyvc: cut points, lemma instances, z3 + cvc5) + bounded run-time contracts for the rest"
-FUNCTIONS = ["multidecoder.node.shift_nodes", "multidecoder.decoders.network.parse_authority", "multidecoder.decoders.network.normalize_path", "multidecoder.decoders.network.parse_url", "multidecoder.decoders.network.is_url", "multidecoder.decoders.network.find_urls"]
+FUNCTIONS = ["multidecoder.node.shift_nodes", "multidecoder.decoders.network.parse_authority", "multidecoder.decoders.network.normalize_path", "multidecoder.decoders.network.parse_ip", "multidecoder.decoders.network.parse_ipv6", "multidecoder.decoders.network.parse_url", "multidecoder.decoders.network.is_url", "multidecoder.decoders.network.find_urls"]
 RULE = "cases = generated URLs / paths; distinct = distinct inputs on which the real decoder reported a node that was compared with the reference"
 EXPLANATION = "bounded stand-in"
 BOUNDED = [NO.bounded_normalize_path, NO.bounded_url_parts, NO.bounded_windows_path]
